@@ -20,6 +20,7 @@ type Oblig struct {
 	Goal   string
 	Pos    token.Position
 	Cover  bool // must be SAT (vacuity check)
+	Canary bool // deliberately false clause: must be refuted (SAT); never assumed
 	Detail string
 	// result
 	Result string // unsat | sat | unknown | timeout | error
@@ -119,6 +120,11 @@ func (s *Session) oblig(kind, label string, tags []string, reach, goal string, p
 		name = fmt.Sprintf("%s/%s#%d", s.Func, kind, s.kindN[kind])
 	}
 	ob := &Oblig{Name: name, Func: s.Func, Kind: kind, Tags: tags, Reach: reach, Goal: goal, Pos: pos, Detail: detail}
+	for _, t := range tags {
+		if t == "canary" {
+			ob.Canary = true
+		}
+	}
 	ob.Index = len(s.Items)
 	s.Items = append(s.Items, Item{Ob: ob})
 	s.Obligs = append(s.Obligs, ob)
@@ -162,7 +168,7 @@ func (s *Session) script(want func(*Oblig) bool, timeoutMs int, cvc bool) (strin
 			}
 			order = append(order, ob)
 		}
-		if !ob.Cover {
+		if !ob.Cover && !ob.Canary {
 			b.WriteString("(assert " + implies(ob.Reach, ob.Goal) + ")\n")
 		}
 	}
@@ -193,7 +199,7 @@ func (s *Session) standalone(target *Oblig, cvc bool, model bool) string {
 			}
 			return b.String()
 		}
-		if !ob.Cover {
+		if !ob.Cover && !ob.Canary {
 			b.WriteString("(assert " + implies(ob.Reach, ob.Goal) + ")\n")
 		}
 	}
